@@ -119,6 +119,8 @@ pub struct RecCollect {
 }
 
 thread_local! {
+    /// fault injection: the next `event`/`new_span` callback on this thread panics (after it has been logged)
+    pub static PANIC_NEXT_CALLBACK: std::cell::Cell<bool> = std::cell::Cell::new(false);
     static STACKS: RefCell<HashMap<usize, Vec<(u64, &'static Metadata<'static>)>>> = RefCell::new(HashMap::new());
 }
 
@@ -214,6 +216,10 @@ impl Collect for RecCollect {
             attrs.parent().map(|p| p.into_u64()).unwrap_or(0)
         };
         self.log("new_span", Some(attrs.metadata()), id, parent, v.val, self.accepts_meta(attrs.metadata()));
+        if PANIC_NEXT_CALLBACK.with(|c| c.replace(false)) {
+            crate::fw::fault("panic_in_collector_callback");
+            panic!("injected panic inside Collect::new_span");
+        }
         Id::from_u64(id)
     }
     fn record(&self, span: &Id, values: &Record<'_>) {
@@ -235,6 +241,10 @@ impl Collect for RecCollect {
             event.parent().map(|p| p.into_u64()).unwrap_or(0)
         };
         self.log("event", Some(event.metadata()), 0, parent, v.val, self.accepts_meta(event.metadata()));
+        if PANIC_NEXT_CALLBACK.with(|c| c.replace(false)) {
+            crate::fw::fault("panic_in_collector_callback");
+            panic!("injected panic inside Collect::event");
+        }
     }
     fn enter(&self, span: &Id) {
         // metadata is not available here; the stack keeps ids only (metadata slot unused)
